@@ -70,8 +70,8 @@ M("c09-codec-utf8", "C09", "C09/BOM-BYTES",
 M("c09-blank-lines-kept", "C09", "C09/EOL-FOLD",
   (P, "line in NEWLINE.split(unfolded) if line)", "line in NEWLINE.split(unfolded))"))
 M("c09-add-raw-compare", "C09", "C09/CASE-TAINT",
-  (C, "name.lower() in ('dtstamp', 'created', 'last-modified')",
-      "name in ('dtstamp', 'created', 'last-modified')"))
+  (C, "name.lower() in ('dtstamp', 'created', 'last-modified', 'acknowledged')",
+      "name in ('dtstamp', 'created', 'last-modified', 'acknowledged')"))
 M("c09-twin-rename-uname", "C09", "silent", (C, "uname", "upper_name", 7))
 
 # ---------------------------------------------------------------- C17
@@ -139,7 +139,7 @@ M("c20-select-not-passed", "C20", "C20/WALK",
 M("c20-walk-no-upper", "C20", "C20/WALK",
   (C, "        if name is not None:\n            name = name.upper()\n        return self._walk(name, select)",
       "        return self._walk(name, select)"))
-M("c20-events-wrong-literal", "C20", "C20/ACCESSORS",
+M("c20-events-wrong-literal", "C20", "C20/WALK",
   (C, 'return self.walk("VEVENT")', 'return self.walk("VTODO")'))
 M("c20-component-eq-unguarded", "C20", "C20/EQ-TOTAL",
   (C, "        if not isinstance(other, Component):\n            return False\n", ""))
@@ -148,8 +148,8 @@ M("c20-vgeo-eq-unguarded", "C20", "C20/EQ-TOTAL",
 M("c20-utcoffset-eq-unguarded", "C20", "C20/EQ-TOTAL",
   (PR, "        if not isinstance(other, vUTCOffset):\n            return False\n        return self.td == other.td",
        "        return self.td == other.td"))
-M("c20-eq-ignores-subcomponents", "C20", "C20/EQ-OBSERVES",
-  (C, "        for subcomponent in self.subcomponents:\n            if subcomponent not in other.subcomponents:\n                return False\n\n        return True",
+M("c20-eq-ignores-subcomponents", "C20", "C20/EQ-LAWS",
+  (C, "        for subcomponent in self.subcomponents:\n            if subcomponent not in unmatched:\n                return False\n            unmatched.remove(subcomponent)\n\n        return True",
       "        return True"),
   (C, "        if len(self.subcomponents) != len(other.subcomponents):\n            return False\n", ""))
 M("c20-unregister-pickle", "C20", "C20/PICKLE",
@@ -248,22 +248,22 @@ M("c05-twin-if-raise-gate", "C05", "silent",
       "        if not ('\\n' not in value):\n            raise ValueError('Content line can not contain unescaped new line characters.')\n"))
 
 # ---------------------------------------------------------------- C01
-M("c01-params-not-attached", "C01", "C01/ATTACH",
+M("c01-params-not-attached", "C01", "C01/PARSE-MODEL",
   (C, "                        parsed_component.params = params\n", ""))
-M("c01-add-first-only", "C01", "C01/ATTACH",
+M("c01-add-first-only", "C01", "C01/PARSE-MODEL",
   (C, "                    for parsed_component in parsed_components:\n                        parsed_component.params = params\n                        component.add(name, parsed_component, encode=0)",
       "                    for parsed_component in parsed_components[:1]:\n                        parsed_component.params = params\n                        component.add(name, parsed_component, encode=0)"))
-M("c01-content-line-drops-params", "C01", "C01/ATTACH",
+M("c01-content-line-drops-params", "C01", "C01/EMIT-MODEL",
   (C, "        params = getattr(value, 'params', Parameters())\n        return Contentline.from_parts(name, params, value, sorted=sorted)",
       "        params = Parameters()\n        return Contentline.from_parts(name, params, value, sorted=sorted)"))
-M("c01-attach-to-root", "C01", "C01/NEST",
+M("c01-attach-to-root", "C01", "C01/PARSE-MODEL",
   (C, "                    stack[-1].add_component(component)", "                    stack[0].add_component(component)"))
-M("c01-end-no-guard", "C01", "C01/NEST",
+M("c01-end-no-guard", "C04", "C04/LENIENT",
   (C, "                if not stack:\n                    # The stack is currently empty, the input must be invalid\n                    raise ValueError('END encountered without an accompanying BEGIN!')\n", ""))
-M("c01-nested-dropped", "C01", "C01/NEST",
+M("c01-nested-dropped", "C01", "C01/PARSE-MODEL",
   (C, "                if not stack:  # we are at the end\n                    comps.append(component)\n                else:\n                    stack[-1].add_component(component)",
       "                if not stack:  # we are at the end\n                    comps.append(component)"))
-M("c01-unknown-name-lost", "C01", "C01/NAME",
+M("c01-unknown-name-lost", "C01", "C01/PARSE-MODEL",
   (C, "                if not getattr(component, 'name', ''):  # undefined components\n                    component.name = c_name\n", ""))
 M("c01-registry-name-mismatch", "C01", "C01/NAME",
   (C, "        self['VJOURNAL'] = Journal", "        self['VJOURNAL'] = Todo"))
@@ -416,9 +416,9 @@ M("c02-twin-rename", "C02", "silent", (C, "oldval", "previous", 7))
 
 # ---------------------------------------------------------------- C11
 M("c11-elif-to-if", "C11", "C11/TZ-TAG",
-  (PR, "        if tzid == 'UTC':\n            s += \"Z\"\n        elif tzid:", "        if tzid == 'UTC':\n            s += \"Z\"\n        if tzid:"))
+  (PR, "        if tzid == 'UTC':\n            s += \"Z\"\n        return s.encode('utf-8')", "        if tzid:\n            s += \"Z\"\n        return s.encode('utf-8')"))
 M("c11-utc-gets-tzid-ddd", "C11", "C11/TZ-TAG",
-  (PR, "        if tzid is not None and tzid != 'UTC':\n            self.params.update({'TZID': tzid})", "        if tzid is not None:\n            self.params.update({'TZID': tzid})"))
+  (PR, "        if tzid is not None and tzid != 'UTC':\n            self.params.update({'TZID': tzid})", "        if tzid is not None:\n            self.params.update({'TZID': tzid})", 2))
 M("c11-revert-period-utc", "C11", "C11/TZ-TAG",
   (PR, "        if tzid and tzid != 'UTC':\n            self.params['TZID'] = tzid", "        if tzid:\n            self.params['TZID'] = tzid"))
 M("c11-no-z", "C11", "C11/TZ-TAG", (PR, '            s += "Z"\n', '            pass\n'))
@@ -436,7 +436,7 @@ M("c11-decoder-ignores-tz", "C11", "C11/TZID-FORWARD",
 M("c11-astimezone-in-writer", "C11", "C11/",
   (PR, "        dt = self.dt\n        tzid = tzid_from_dt(dt)\n", "        dt = self.dt\n        tzid = tzid_from_dt(dt)\n        if tzid and tzid != 'UTC':\n            dt = dt.astimezone(dt.tzinfo)\n"))
 M("c11-period-normalizes-end", "C11", "C11/TZ-TAG",
-  (PR, "        else:\n            end = end_or_duration\n            duration = end - start", "        else:\n            end = normalize_pytz(end_or_duration)\n            duration = end - start"),
+  (PR, "            else:\n                end = end_or_duration\n                duration = end - start", "            else:\n                end = normalize_pytz(end_or_duration)\n                duration = end - start"),
   (PR, "from .timezone import tzid_from_dt, tzid_from_tzinfo, tzp", "from .timezone import tzid_from_dt, tzid_from_tzinfo, tzp\nfrom .tools import normalize_pytz"))
 M("c11-twin-rename", "C11", "silent", (PR, "        tzid = tzid_from_dt(start)\n        if tzid and tzid != 'UTC':", "        zone_id = tzid_from_dt(start)\n        tzid = zone_id\n        if tzid and tzid != 'UTC':"))
 
@@ -493,10 +493,10 @@ M("c10-flag-not-passed-recursion", "C10", "C10/SORT-FLAG",
   (C, "                properties += subcomponent.property_items(sorted=sorted)", "                properties += subcomponent.property_items()"))
 M("c10-flag-not-passed-params", "C10", "C10/SORT-FLAG",
   (P, "            params = to_unicode(params.to_ical(sorted=sorted))", "            params = to_unicode(params.to_ical())"))
-M("c10-end-before-subcomponents", "C10", "C10/BALANCED",
+M("c10-end-before-subcomponents", "C10", "C10/TREE-EMIT",
   (C, "        if recursive:\n            # recursion is fun!\n            for subcomponent in self.subcomponents:\n                properties += subcomponent.property_items(sorted=sorted)\n        properties.append(('END', vText(self.name).to_ical()))",
       "        properties.append(('END', vText(self.name).to_ical()))\n        if recursive:\n            # recursion is fun!\n            for subcomponent in self.subcomponents:\n                properties += subcomponent.property_items(sorted=sorted)"))
-M("c10-first-value-only", "C10", "C10/BALANCED",
+M("c10-first-value-only", "C10", "C10/TREE-EMIT",
   (C, "                for value in values:\n                    properties.append((name, value))", "                for value in values[:1]:\n                    properties.append((name, value))"))
 M("c10-lowercase-canonical", "C10", "C10/SORT-FLAG",
   (C, "    canonical_order = ('VERSION', 'PRODID', 'CALSCALE', 'METHOD',)", "    canonical_order = ('version', 'PRODID', 'CALSCALE', 'METHOD',)"))
@@ -508,15 +508,15 @@ M("c18-revert-discard", "C18", "C18/TOTAL",
   (C, "            if 'TZID' in timezone:\n                tzids.discard(timezone.tz_name)", "            tzids.remove(timezone.tz_name)"))
 M("c18-revert-tzid-guard", "C18", "C18/TOTAL",
   (C, "            if 'TZID' in timezone:\n                tzids.discard(timezone.tz_name)", "            tzids.discard(timezone.tz_name)"))
-M("c18-not-recursive", "C18", "C18/COVER",
+M("c18-not-recursive", "C18", "C18/MODEL",
   (C, "        for name, value in self.property_items(sorted=False):", "        for name, value in self.property_items(recursive=False, sorted=False):"))
-M("c18-only-dt-names", "C18", "C18/COVER",
+M("c18-only-dt-names", "C18", "C18/MODEL",
   (C, "            if hasattr(value, \"params\"):\n                result.add(value.params.get(\"TZID\"))", "            if name.startswith('DT') and hasattr(value, \"params\"):\n                result.add(value.params.get(\"TZID\"))"))
-M("c18-cleaned-id", "C18", "C18/CLOSE",
+M("c18-cleaned-id", "C18", "C18/MODEL",
   (C, "                timezone = Timezone.from_tzid(\n                    tzid,", "                timezone = Timezone.from_tzid(\n                    tzid.strip('/'),"))
-M("c18-from-tzid-cleans", "C18", "C18/CLOSE",
+M("c18-from-tzid-cleans", "C18", "C18/MODEL",
   (C, "        tz = tzp.timezone(tzid)\n        if tz is None:\n            raise ValueError(f\"Unkown timezone {tzid}.\")", "        tzid = tzp.clean_timezone_id(tzid)\n        tz = tzp.timezone(tzid)\n        if tz is None:\n            raise ValueError(f\"Unkown timezone {tzid}.\")"))
-M("c18-unknown-aborts", "C18", "C18/CLOSE",
+M("c18-unknown-aborts", "C18", "C18/MODEL",
   (C, "            except ValueError:\n                continue\n            self.add_component(timezone)", "            except ValueError:\n                break\n            self.add_component(timezone)"))
 M("c18-first-list-value-only", "C18", "C18/COVER",
   (C, "                for value in values:\n                    properties.append((name, value))", "                for value in values[:1]:\n                    properties.append((name, value))"))
